@@ -5,8 +5,11 @@ use harness::*;
 const REQUIRED: [usize; 11] = [0, 1, 2, 5, 11, 12, 13, 15, 16, 17, 21];
 
 fn str_value(rng: &mut Rng) -> String {
-    match rng.below(16) {
+    match rng.below(18) {
         0 => String::new(),
+        // values are text, not paths or names: nothing is normalised on the way in
+        16 => rng.pick(&["../../pkgtools/testpkg", "../../a/b", "a/b/", "./a/b", "a//b", "../../a/b/"]).to_string(),
+        17 => rng.pick(&["foo-1.0nb0", "FOO", "x86_64 ", "9223372036854775808", "-0", "+5", "1e3"]).to_string(),
         12 => "\u{feff}bom".into(),
         13 => "nul\0in".into(),
         14 => "trail \u{3000}".into(),
@@ -511,6 +514,29 @@ fn gen_c09(tier: &str, rng: &mut Rng, emit: &mut dyn FnMut(Op)) {
             s.push('\n');
         }
         partitions(rng, s.as_bytes(), thorough, emit);
+    }
+    // a record larger than 64 KiB (a long DESCRIPTION), written in one call, in 4 KiB pieces, cut
+    // right after the previous separator and again beyond 64 KiB, and in pieces of 64 KiB + 1
+    {
+        let small = "BUILD_DATE=d\nCATEGORIES=c\nCOMMENT=x\nDESCRIPTION=first\nMACHINE_ARCH=x\nOPSYS=x\nOS_VERSION=x\nPKGNAME=a-1\nPKGPATH=a/b\nPKGTOOLS_VERSION=1\nSIZE_PKG=1\n\n";
+        let mut big = String::from("BUILD_DATE=d\nCATEGORIES=c\nCOMMENT=x\n");
+        for i in 0..900 {
+            big.push_str(&format!("DESCRIPTION=line {} of a very long description, padded to about eighty bytes ........\n", i));
+        }
+        big.push_str("MACHINE_ARCH=x\nOPSYS=x\nOS_VERSION=x\nPKGNAME=big-1\nPKGPATH=a/b\nPKGTOOLS_VERSION=1\nSIZE_PKG=1\n\n");
+        let stream = format!("{}{}{}", small, big, small);
+        let b = stream.as_bytes();
+        emit(Op::new("stream.write", &[b]));
+        for size in [4096usize, 65537, 30000] {
+            let chunks: Vec<&[u8]> = b.chunks(size).collect();
+            emit(Op::new("stream.write", &chunks));
+        }
+        let cut1 = small.len();
+        for cut2 in [cut1 + 65536, cut1 + 65537, cut1 + 70000] {
+            if cut2 < b.len() {
+                emit(Op::new("stream.write", &[&b[..cut1], &b[cut1..cut2], &b[cut2..]]));
+            }
+        }
     }
     // a tiny hand-made stream with cuts inside é, €, 𐀀 and inside the separator
     let small = "BUILD_DATE=é\nCATEGORIES=€\nCOMMENT=𐀀\nDESCRIPTION=é\nMACHINE_ARCH=x\nOPSYS=x\nOS_VERSION=x\nPKGNAME=a-1\nPKGPATH=a/b\nPKGTOOLS_VERSION=1\nSIZE_PKG=1\n\n";
